@@ -92,7 +92,7 @@ BLAS_STUBS = [r'_ZNSt7__cxx1112basic_string', r'_ZNSt11logic_error', r'_ZNSt13ru
 HERK_REJECT = [r'^LIBASSERT boost/multi/adaptors/blas/(herk|gemm|gemv|trsm)\.hpp:\d+: 0( && "not implemented in blas")?$']
 KF13 = {}   # the former known finding C13-gemm-unit-extent is fixed in /repo (0d18b03); gemm_unit_l* are ordinary entries now
 # quick: the complex instantiations WITHOUT conjugation (zgemm_s00_*, ztrsm_s00_*) run the same dispatch as the double ones and are left to the thorough tier
-C13_QUICK_SKIP = ['zgemm_s00_l%d' % l for l in range(8)] + ['ztrsm_s00_l%d' % l for l in range(4)]
+C13_QUICK_SKIP = ['zgemm_s00_l%d' % l for l in range(8)] + ['ztrsm_s00_l%d' % l for l in range(4)] + ['gemm_forms_l2', 'gemm_forms_l5']
 U('C13', 'C13_blas.cpp', defines=dict(NB=2, PAD=2), unwind=6, timeout=1800, heap=1024, stubs=BLAS_STUBS, objbits=12, inline=400, slots=2, kf=KF13, reject=HERK_REJECT, skip_entries=C13_QUICK_SKIP)
 U('C13', 'C13_blas.cpp', name='C13_blas_NB2_PAD2_all', defines=dict(NB=2, PAD=2), entries=C13_QUICK_SKIP, unwind=6, timeout=1800, heap=1024, stubs=BLAS_STUBS, objbits=12, inline=400, slots=2, reject=HERK_REJECT, tier='thorough')
 U('C13', 'C13_blas.cpp', defines=dict(NB=3, PAD=2), unwind=6, timeout=3600, heap=1024, stubs=BLAS_STUBS, objbits=12, inline=400, slots=3, kf=KF13, tier='thorough', reject=HERK_REJECT)
